@@ -26,24 +26,29 @@ theorem enumCan_of_noCant (os : List Obj) (m : Marks) (e : String) (h : NoCant m
 
 def Good (s : St) : Prop := NoCant s.marks ∧ s.schemaUnprocessed = false
 
-/-- what one `checkItem` / a run of them may do to a Good state on behalf of `parent` -/
+/-- what one `checkItem` / a run of them may do to a Good state on behalf of `parent`: nothing, or lower `parent` from a
+    decided mark to NOTKNOWN and count it — exactly once -/
 structure Rel (parent : String) (s s' : St) : Prop where
   good : Good s'
-  mono : s.unknown ≤ s'.unknown
   others : ∀ k, k ≠ parent → s'.marks k = s.marks k
-  counted : s'.marks parent = .notknown → s.marks parent = .notknown ∨ s.unknown + 1 ≤ s'.unknown
+  exact : (s'.marks parent = s.marks parent ∧ s'.unknown = s.unknown) ∨
+          (s.marks parent ≠ .notknown ∧ s'.marks parent = .notknown ∧ s'.unknown = s.unknown + 1)
 
 theorem Rel.refl (parent : String) (s : St) (h : Good s) : Rel parent s s :=
-  ⟨h, Int.le_refl _, fun _ _ => rfl, fun hk => Or.inl hk⟩
+  ⟨h, fun _ _ => rfl, Or.inl ⟨rfl, rfl⟩⟩
 
 theorem Rel.trans {parent : String} {a b c : St} (h1 : Rel parent a b) (h2 : Rel parent b c) : Rel parent a c := by
-  refine ⟨h2.good, Int.le_trans h1.mono h2.mono, fun k hk => by rw [h2.others k hk, h1.others k hk], ?_⟩
-  intro hc
-  rcases h2.counted hc with hb | hb
-  · rcases h1.counted hb with ha | ha
-    · exact Or.inl ha
-    · exact Or.inr (Int.le_trans ha h2.mono)
-  · exact Or.inr (by have := h1.mono; omega)
+  refine ⟨h2.good, fun k hk => by rw [h2.others k hk, h1.others k hk], ?_⟩
+  rcases h1.exact with ⟨m1, u1⟩ | ⟨n1, m1, u1⟩
+  · rcases h2.exact with ⟨m2, u2⟩ | ⟨n2, m2, u2⟩
+    · exact Or.inl ⟨by rw [m2, m1], by rw [u2, u1]⟩
+    · exact Or.inr ⟨by rw [← m1]; exact n2, m2, by rw [u2, u1]⟩
+  · rcases h2.exact with ⟨m2, u2⟩ | ⟨n2, _, _⟩
+    · exact Or.inr ⟨n1, by rw [m2, m1], by rw [u2, u1]⟩
+    · exact absurd m1 n2
+
+theorem Rel.mono {parent : String} {a b : St} (h : Rel parent a b) : a.unknown ≤ b.unknown := by
+  rcases h.exact with ⟨_, u⟩ | ⟨_, _, u⟩ <;> omega
 
 theorem setMark_self (m : Marks) (n : String) (v : Mark) : setMark m n v n = v := by simp [setMark]
 theorem setMark_other (m : Marks) (n k : String) (v : Mark) (h : k ≠ n) : setMark m n v k = m k := by simp [setMark, h]
@@ -70,7 +75,8 @@ theorem checkItem_rel (os : List Obj) (s : St) (parent item : String) (noSel : B
           · simp only [hp, ne_eq, not_true_eq_false, if_false]
             exact ⟨Rel.refl _ _ h, trivial⟩
           · simp only [hp, ne_eq, not_false_eq_true, if_true]
-            refine ⟨⟨⟨noCant_set _ _ _ h.1 (by decide), h.2⟩, by simp; omega, fun k hk => setMark_other _ _ _ _ hk, fun _ => Or.inr (by simp)⟩, trivial⟩
+            exact ⟨⟨⟨noCant_set _ _ _ h.1 (by decide), h.2⟩, fun k hk => setMark_other _ _ _ _ hk,
+              Or.inr ⟨hp, setMark_self _ _ _, rfl⟩⟩, trivial⟩
         | canprocess => exact ⟨Rel.refl _ _ h, rfl⟩
         | processed => exact ⟨Rel.refl _ _ h, rfl⟩
       · simp only [hs, Bool.false_eq_true, if_false]
@@ -90,16 +96,19 @@ theorem checkItems_rel (os : List Obj) (parent : String) (noSel : Bool) (items :
     have := ih _ hc.1.good
     exact ⟨hc.1.trans this.1, this.2⟩
 
-/-- one visit: a Good state stays Good, `unknowncnt` never decreases, only the visited object's mark changes, and if it
-    ends NOTKNOWN it has been counted -/
+/-- one visit: a Good state stays Good, only the visited object's mark changes; an object that was not NOTKNOWN is skipped;
+    one that was ends CANPROCESS (count unchanged) or NOTKNOWN (count + 1) -/
 theorem visit_rel (os : List Obj) (s : St) (o : Obj) (h : Good s) :
-    Good (visit .inSchemaOrProcessed os s o) ∧ s.unknown ≤ (visit .inSchemaOrProcessed os s o).unknown ∧
+    Good (visit .inSchemaOrProcessed os s o) ∧
     (∀ k, k ≠ o.name → (visit .inSchemaOrProcessed os s o).marks k = s.marks k) ∧
-    ((visit .inSchemaOrProcessed os s o).marks o.name = .notknown → s.unknown + 1 ≤ (visit .inSchemaOrProcessed os s o).unknown) := by
+    (s.marks o.name ≠ .notknown → visit .inSchemaOrProcessed os s o = s) ∧
+    (s.marks o.name = .notknown →
+      ((visit .inSchemaOrProcessed os s o).marks o.name = .canprocess ∧ (visit .inSchemaOrProcessed os s o).unknown = s.unknown) ∨
+      ((visit .inSchemaOrProcessed os s o).marks o.name = .notknown ∧ (visit .inSchemaOrProcessed os s o).unknown = s.unknown + 1)) := by
   by_cases hn : s.marks o.name ≠ .notknown
   · have e : visit .inSchemaOrProcessed os s o = s := by unfold visit; rw [if_pos hn]
     rw [e]
-    exact ⟨h, Int.le_refl _, fun _ _ => rfl, fun hk => absurd hk hn⟩
+    exact ⟨h, fun _ _ => rfl, fun _ => rfl, fun hk => absurd hk hn⟩
   · have h1 : Good { s with marks := setMark s.marks o.name .canprocess } :=
       ⟨noCant_set _ _ _ h.1 (by decide), h.2⟩
     have h2 := checkItems_rel os o.name false o.items _ h1
@@ -113,81 +122,240 @@ theorem visit_rel (os : List Obj) (s : St) (o : Obj) (h : Good s) :
       simp only [h2.2, Bool.false_eq_true, if_false]
     rw [e]
     have r := h2.1.trans h3.1
-    refine ⟨r.good, r.mono, fun k hk => by rw [r.others k hk]; exact setMark_other _ _ _ _ hk, ?_⟩
-    intro hk
-    rcases r.counted hk with hc | hc
-    · rw [show ({ s with marks := setMark s.marks o.name .canprocess } : St).marks o.name = .canprocess from setMark_self _ _ _] at hc
-      exact absurd hc (by decide)
-    · exact hc
+    have hc : ({ s with marks := setMark s.marks o.name .canprocess } : St).marks o.name = .canprocess := setMark_self _ _ _
+    refine ⟨r.good, fun k hk => by rw [r.others k hk]; exact setMark_other _ _ _ _ hk, fun hk => absurd hk hn, ?_⟩
+    intro _
+    rcases r.exact with ⟨m, u⟩ | ⟨_, m, u⟩
+    · exact Or.inl ⟨by rw [m, hc], u⟩
+    · exact Or.inr ⟨m, u⟩
 
 theorem visit_good (os : List Obj) (s : St) (o : Obj) (h : Good s) : Good (visit .inSchemaOrProcessed os s o) :=
   (visit_rel os s o h).1
 
-/-- invariant of a sweep started with `unknowncnt = u0`: every object of the visited prefix that is NOTKNOWN now has
-    been counted -/
-theorem sweep_counts (os : List Obj) (order : List Obj) (s : St) (u0 : Int) (P : String → Prop)
-    (h : Good s) (hu : u0 ≤ s.unknown) (hP : ∀ k, P k → s.marks k = .notknown → u0 + 1 ≤ s.unknown) :
-    Good (sweep .inSchemaOrProcessed os order s) ∧ u0 ≤ (sweep .inSchemaOrProcessed os order s).unknown ∧
-    ∀ k, (P k ∨ ∃ o ∈ order, o.name = k) → (sweep .inSchemaOrProcessed os order s).marks k = .notknown →
-      u0 + 1 ≤ (sweep .inSchemaOrProcessed os order s).unknown := by
-  unfold sweep
-  induction order generalizing s P with
-  | nil =>
-    refine ⟨h, hu, ?_⟩
-    intro k hk hm
-    rcases hk with hk | ⟨o, ho, _⟩
-    · exact hP k hk hm
-    · exact absurd ho List.not_mem_nil
-  | cons o rest ih =>
-    have v := visit_rel os s o h
-    simp only [List.foldl_cons]
-    have hP' : ∀ k, (P k ∨ k = o.name) → (visit .inSchemaOrProcessed os s o).marks k = .notknown →
-        u0 + 1 ≤ (visit .inSchemaOrProcessed os s o).unknown := by
-      intro k hk hm
-      by_cases hko : k = o.name
-      · subst hko
-        have := v.2.2.2 hm
-        omega
-      · rcases hk with hk | hk
-        · rw [v.2.2.1 k hko] at hm
-          have := hP k hk hm
-          have := v.2.1
-          omega
-        · exact absurd hk hko
-    have r := ih (visit .inSchemaOrProcessed os s o) (fun k => P k ∨ k = o.name) v.1 (Int.le_trans hu v.2.1) hP'
-    refine ⟨r.1, r.2.1, ?_⟩
-    intro k hk hm
-    apply r.2.2 k ?_ hm
-    rcases hk with hk | ⟨o', ho', hn⟩
-    · exact Or.inl (Or.inl hk)
-    · rcases List.mem_cons.mp ho' with rfl | ho'
-      · exact Or.inl (Or.inr hn.symm)
-      · exact Or.inr ⟨o', ho', hn⟩
+/-- number of objects of `l` that are NOTKNOWN under `m` -/
+def cnt (l : List Obj) (m : Marks) : Nat := l.countP (fun o => decide (m o.name = .notknown))
 
-theorem sweep_good (os order : List Obj) (s : St) (h : Good s) : Good (sweep .inSchemaOrProcessed os order s) :=
-  (sweep_counts os order s s.unknown (fun _ => False) h (Int.le_refl _) (fun _ hk => absurd hk id)).1
+theorem cnt_congr (l : List Obj) (m m' : Marks) (h : ∀ o ∈ l, m' o.name = m o.name) : cnt l m' = cnt l m := by
+  unfold cnt
+  apply List.countP_congr
+  intro o ho
+  rw [h o ho]
+
+/-- a sweep over objects with pairwise different names, exactly: `unknowncnt` grows by the number of visited objects that
+    are NOTKNOWN afterwards, objects outside the sweep keep their marks, and no object becomes NOTKNOWN that was not -/
+theorem sweep_exact (os : List Obj) (order : List Obj) (hnd : (order.map (·.name)).Nodup) (s : St) (h : Good s) :
+    Good (sweep .inSchemaOrProcessed os order s) ∧
+    (sweep .inSchemaOrProcessed os order s).unknown = s.unknown + cnt order (sweep .inSchemaOrProcessed os order s).marks ∧
+    (∀ k, (∀ o ∈ order, o.name ≠ k) → (sweep .inSchemaOrProcessed os order s).marks k = s.marks k) ∧
+    (∀ o ∈ order, (sweep .inSchemaOrProcessed os order s).marks o.name = .notknown → s.marks o.name = .notknown) := by
+  unfold sweep
+  induction order generalizing s with
+  | nil => exact ⟨h, by simp [cnt], fun _ _ => rfl, fun o ho => absurd ho List.not_mem_nil⟩
+  | cons o rest ih =>
+    simp only [List.map_cons, List.nodup_cons] at hnd
+    have v := visit_rel os s o h
+    have r := ih hnd.2 (visit .inSchemaOrProcessed os s o) v.1
+    simp only [List.foldl_cons]
+    have hfresh : ∀ o' ∈ rest, o'.name ≠ o.name := fun o' ho' e => hnd.1 (List.mem_map.mpr ⟨o', ho', e⟩)
+    -- the mark of `o` after the whole sweep is its mark after its own visit
+    have hkeep : (List.foldl (visit .inSchemaOrProcessed os) (visit .inSchemaOrProcessed os s o) rest).marks o.name =
+        (visit .inSchemaOrProcessed os s o).marks o.name := r.2.2.1 o.name hfresh
+    refine ⟨r.1, ?_, ?_, ?_⟩
+    · rw [r.2.1]
+      have hc : cnt (o :: rest) (List.foldl (visit .inSchemaOrProcessed os) (visit .inSchemaOrProcessed os s o) rest).marks =
+          cnt rest (List.foldl (visit .inSchemaOrProcessed os) (visit .inSchemaOrProcessed os s o) rest).marks +
+          (if (visit .inSchemaOrProcessed os s o).marks o.name = .notknown then 1 else 0) := by
+        unfold cnt
+        rw [List.countP_cons, hkeep]
+        simp
+      rw [hc]
+      by_cases hm : s.marks o.name = .notknown
+      · rcases v.2.2.2 hm with ⟨m, u⟩ | ⟨m, u⟩
+        · rw [u, m]; simp
+        · rw [u, m]; simp; omega
+      · have e := v.2.2.1 hm
+        rw [e]
+        simp [hm]
+    · intro k hk
+      rw [r.2.2.1 k (fun o' ho' => hk o' (List.mem_cons_of_mem _ ho'))]
+      exact v.2.1 k (fun e => hk o List.mem_cons_self e.symm)
+    · intro o' ho' hm
+      rcases List.mem_cons.mp ho' with rfl | ho'
+      · rw [hkeep] at hm
+        by_cases hs : s.marks o'.name = .notknown
+        · exact hs
+        · rw [v.2.2.1 hs] at hm
+          exact absurd hm hs
+      · have := r.2.2.2 o' ho' hm
+        rw [v.2.1 o'.name (hfresh o' ho')] at this
+        exact this
+
+theorem sweep_good (os order : List Obj) (s : St) (h : Good s) : Good (sweep .inSchemaOrProcessed os order s) := by
+  unfold sweep
+  induction order generalizing s with
+  | nil => exact h
+  | cons o rest ih => exact ih _ (visit_good os s o h)
 
 theorem sweeps_good (os order : List Obj) (n : Nat) (s : St) (h : Good s) : Good (sweeps .inSchemaOrProcessed os order n s) := by
   induction n generalizing s with
   | zero => exact h
   | succ n ih => exact ih _ (sweep_good os order s h)
 
-theorem loopState_good (os order : List Obj) (k : Nat) : Good (loopState .inSchemaOrProcessed os order k) := by
-  induction k with
-  | zero => exact ⟨fun k => by simp [loopState, initial], rfl⟩
-  | succ k ih => exact sweep_good os order _ ⟨ih.1, ih.2⟩
+theorem resetUnknown_good (s : St) (h : Good s) : Good (resetUnknown s) := ⟨h.1, h.2⟩
 
-/-- if an iteration of the loop ends with `unknowncnt ≤ 0`, every object of the sweep order has a verdict -/
-theorem settled_of_unknown_zero (os order : List Obj) (k : Nat)
-    (h0 : (loopState .inSchemaOrProcessed os order (k + 1)).unknown ≤ 0) :
-    Settled order (loopState .inSchemaOrProcessed os order (k + 1)) := by
-  have g := loopState_good os order k
-  have r := sweep_counts os order { loopState .inSchemaOrProcessed os order k with unknown := 0 } 0 (fun _ => False)
-    ⟨g.1, g.2⟩ (Int.le_refl _) (fun _ hk => absurd hk id)
-  intro o ho hm
-  have hm' : (sweep .inSchemaOrProcessed os order { loopState .inSchemaOrProcessed os order k with unknown := 0 }).marks o.name = .notknown := hm
-  have h0' : (sweep .inSchemaOrProcessed os order { loopState .inSchemaOrProcessed os order k with unknown := 0 }).unknown ≤ 0 := h0
-  have := r.2.2 o.name (Or.inr ⟨o, ho, rfl⟩) hm'
+/-- a sweep started with `unknowncnt = 0`: afterwards `unknowncnt` IS the number of NOTKNOWN objects, and no object
+    is NOTKNOWN that was not before -/
+theorem sweep_from_zero (os order : List Obj) (hnd : (order.map (·.name)).Nodup) (s : St) (h : Good s) :
+    Good (sweep .inSchemaOrProcessed os order (resetUnknown s)) ∧
+    (sweep .inSchemaOrProcessed os order (resetUnknown s)).unknown = cnt order (sweep .inSchemaOrProcessed os order (resetUnknown s)).marks ∧
+    (∀ o ∈ order, (sweep .inSchemaOrProcessed os order (resetUnknown s)).marks o.name = .notknown → s.marks o.name = .notknown) := by
+  have r := sweep_exact os order hnd (resetUnknown s) (resetUnknown_good s h)
+  refine ⟨r.1, ?_, r.2.2.2⟩
+  have := r.2.1
+  have z : (resetUnknown s).unknown = 0 := rfl
+  rw [z] at this
   omega
+
+/-- a sweep started with `unknowncnt = 0` that ends with `unknowncnt ≤ 0` leaves no object of the sweep order NOTKNOWN -/
+theorem settled_of_unknown_zero (os order : List Obj) (hnd : (order.map (·.name)).Nodup) (s : St) (h : Good s)
+    (h0 : (sweep .inSchemaOrProcessed os order (resetUnknown s)).unknown ≤ 0) :
+    Settled order (sweep .inSchemaOrProcessed os order (resetUnknown s)) := by
+  have r := sweep_from_zero os order hnd s h
+  intro o ho hm
+  have hpos : 0 < cnt order (sweep .inSchemaOrProcessed os order (resetUnknown s)).marks := by
+    unfold cnt
+    exact List.countP_pos_iff.mpr ⟨o, ho, by simp [hm]⟩
+  have := r.2.1
+  omega
+
+theorem markRemaining_good (order : List Obj) (s : St) (h : Good s) : Good (markRemaining order s) := by
+  refine ⟨?_, h.2⟩
+  intro k
+  simp only [markRemaining]
+  split
+  · decide
+  · exact h.1 k
+
+theorem markRemaining_settled (order : List Obj) (s : St) : Settled order (markRemaining order s) := by
+  intro o ho
+  simp only [markRemaining]
+  split
+  · decide
+  · rename_i hc
+    intro hm
+    exact hc ⟨hm, List.any_eq_true.mpr ⟨o, ho, by simp⟩⟩
+
+theorem iterate_exited (l : SweepLoop) (lc : EnumLastCase) (os order : List Obj) (ls : LoopSt) (k : Nat)
+    (h : ls.exited = true) : iterate l lc os order ls k = ls := by
+  unfold iterate; rw [if_pos h]
+
+theorem iterate_settle (lc : EnumLastCase) (os order : List Obj) (ls : LoopSt) (k : Nat) (h : ls.exited = false) :
+    iterate .untilSettled lc os order ls k =
+      { st := sweep lc os order (resetUnknown ls.st), last := ls.last,
+        exited := decide ((sweep lc os order (resetUnknown ls.st)).unknown ≤ 0) } := by
+  unfold iterate; rw [if_neg (by rw [h]; decide)]
+
+theorem iterate_stall (lc : EnumLastCase) (os order : List Obj) (ls : LoopSt) (k : Nat) (h : ls.exited = false)
+    (hc : 0 < (sweep lc os order (resetUnknown ls.st)).unknown ∧ (sweep lc os order (resetUnknown ls.st)).unknown = ls.last) :
+    iterate .untilSettledOrStalled lc os order ls k =
+      { st := markRemaining order (sweep lc os order (resetUnknown ls.st)), last := ls.last, exited := true } := by
+  unfold iterate; rw [if_neg (by rw [h]; decide)]; simp only; rw [if_pos hc]
+
+theorem iterate_nostall (lc : EnumLastCase) (os order : List Obj) (ls : LoopSt) (k : Nat) (h : ls.exited = false)
+    (hc : ¬ (0 < (sweep lc os order (resetUnknown ls.st)).unknown ∧ (sweep lc os order (resetUnknown ls.st)).unknown = ls.last)) :
+    iterate .untilSettledOrStalled lc os order ls k =
+      { st := sweep lc os order (resetUnknown ls.st), last := (sweep lc os order (resetUnknown ls.st)).unknown,
+        exited := decide ((sweep lc os order (resetUnknown ls.st)).unknown ≤ 0) } := by
+  unfold iterate; rw [if_neg (by rw [h]; decide)]; simp only; rw [if_neg hc]
+
+/-- invariant of the loop (original last case of `ENUMcanBeProcessed`, loop shapes without a sweep bound): the state is
+    Good, and once the loop has been left everything is settled -/
+theorem run_inv (l : SweepLoop) (hl : l = .untilSettled ∨ l = .untilSettledOrStalled) (os order : List Obj)
+    (hnd : (order.map (·.name)).Nodup) (k : Nat) :
+    Good (run l .inSchemaOrProcessed os order k).st ∧
+    ((run l .inSchemaOrProcessed os order k).exited = true → Settled order (run l .inSchemaOrProcessed os order k).st) := by
+  induction k with
+  | zero => exact ⟨⟨fun k => by simp [run, initial], rfl⟩, fun h => by simp [run] at h⟩
+  | succ k ih =>
+    have erun : run l .inSchemaOrProcessed os order (k + 1) =
+        iterate l .inSchemaOrProcessed os order (run l .inSchemaOrProcessed os order k) (k + 1) := rfl
+    rw [erun]
+    cases he : (run l .inSchemaOrProcessed os order k).exited with
+    | true => rw [iterate_exited _ _ _ _ _ _ he]; exact ih
+    | false =>
+      have g := sweep_good os order (resetUnknown (run l .inSchemaOrProcessed os order k).st) (resetUnknown_good _ ih.1)
+      rcases hl with rfl | rfl
+      · rw [iterate_settle _ _ _ _ _ he]
+        exact ⟨g, fun hx => settled_of_unknown_zero os order hnd _ ih.1 (by simpa using hx)⟩
+      · by_cases hc : 0 < (sweep .inSchemaOrProcessed os order (resetUnknown (run .untilSettledOrStalled .inSchemaOrProcessed os order k).st)).unknown ∧
+            (sweep .inSchemaOrProcessed os order (resetUnknown (run .untilSettledOrStalled .inSchemaOrProcessed os order k).st)).unknown = (run .untilSettledOrStalled .inSchemaOrProcessed os order k).last
+        · rw [iterate_stall _ _ _ _ _ he hc]
+          exact ⟨markRemaining_good order _ g, fun _ => markRemaining_settled order _⟩
+        · rw [iterate_nostall _ _ _ _ _ he hc]
+          exact ⟨g, fun hx => settled_of_unknown_zero os order hnd _ ih.1 (by simpa using hx)⟩
+
+/-- while the stall-detecting loop runs, `lastunknowncnt` is the number of NOTKNOWN objects, and that number has gone down
+    by at least one per completed iteration -/
+theorem run_stalled_progress (os order : List Obj) (hnd : (order.map (·.name)).Nodup) (k : Nat) :
+    (run .untilSettledOrStalled .inSchemaOrProcessed os order (k + 1)).exited = false →
+    (run .untilSettledOrStalled .inSchemaOrProcessed os order (k + 1)).last =
+        cnt order (run .untilSettledOrStalled .inSchemaOrProcessed os order (k + 1)).st.marks ∧
+    (cnt order (run .untilSettledOrStalled .inSchemaOrProcessed os order (k + 1)).st.marks : Int) + k ≤ order.length := by
+  induction k with
+  | zero =>
+    intro _
+    have he : (run .untilSettledOrStalled .inSchemaOrProcessed os order 0).exited = false := rfl
+    have g0 : Good (run .untilSettledOrStalled .inSchemaOrProcessed os order 0).st := ⟨fun k => by simp [run, initial], rfl⟩
+    obtain ⟨_, hu, _⟩ := sweep_from_zero os order hnd _ g0
+    have hle : cnt order (sweep .inSchemaOrProcessed os order (resetUnknown (run .untilSettledOrStalled .inSchemaOrProcessed os order 0).st)).marks ≤ order.length :=
+      List.countP_le_length
+    have hc : ¬ (0 < (sweep .inSchemaOrProcessed os order (resetUnknown (run .untilSettledOrStalled .inSchemaOrProcessed os order 0).st)).unknown ∧
+        (sweep .inSchemaOrProcessed os order (resetUnknown (run .untilSettledOrStalled .inSchemaOrProcessed os order 0).st)).unknown = (run .untilSettledOrStalled .inSchemaOrProcessed os order 0).last) := by
+      intro ⟨h1, h2⟩
+      have : (run .untilSettledOrStalled .inSchemaOrProcessed os order 0).last = -1 := rfl
+      omega
+    have e : run .untilSettledOrStalled .inSchemaOrProcessed os order (0 + 1) = _ := iterate_nostall _ _ _ _ 1 he hc
+    rw [e]
+    exact ⟨hu, by simp only; omega⟩
+  | succ k ih =>
+    intro hne
+    have hprev : (run .untilSettledOrStalled .inSchemaOrProcessed os order (k + 1)).exited = false := by
+      cases hp : (run .untilSettledOrStalled .inSchemaOrProcessed os order (k + 1)).exited with
+      | false => rfl
+      | true =>
+        have e : run .untilSettledOrStalled .inSchemaOrProcessed os order (k + 1 + 1) = _ := iterate_exited _ _ _ _ _ (k + 1 + 1) hp
+        rw [e, hp] at hne; exact absurd hne (by decide)
+    have ⟨hlast, hbound⟩ := ih hprev
+    have g := (run_inv .untilSettledOrStalled (Or.inr rfl) os order hnd (k + 1)).1
+    obtain ⟨_, hu, hback⟩ := sweep_from_zero os order hnd _ g
+    have hmono : cnt order (sweep .inSchemaOrProcessed os order (resetUnknown (run .untilSettledOrStalled .inSchemaOrProcessed os order (k + 1)).st)).marks
+        ≤ cnt order (run .untilSettledOrStalled .inSchemaOrProcessed os order (k + 1)).st.marks := by
+      unfold cnt
+      apply List.countP_mono_left
+      intro o ho hm
+      simp only [decide_eq_true_eq] at hm ⊢
+      exact hback o ho hm
+    by_cases hc : 0 < (sweep .inSchemaOrProcessed os order (resetUnknown (run .untilSettledOrStalled .inSchemaOrProcessed os order (k + 1)).st)).unknown ∧
+        (sweep .inSchemaOrProcessed os order (resetUnknown (run .untilSettledOrStalled .inSchemaOrProcessed os order (k + 1)).st)).unknown = (run .untilSettledOrStalled .inSchemaOrProcessed os order (k + 1)).last
+    · have e : run .untilSettledOrStalled .inSchemaOrProcessed os order (k + 1 + 1) = _ := iterate_stall _ _ _ _ (k + 1 + 1) hprev hc
+      rw [e] at hne
+      exact absurd hne (by simp)
+    · have e : run .untilSettledOrStalled .inSchemaOrProcessed os order (k + 1 + 1) = _ := iterate_nostall _ _ _ _ (k + 1 + 1) hprev hc
+      rw [e] at hne ⊢
+      simp only [decide_eq_false_iff_not, Int.not_le] at hne
+      refine ⟨hu, ?_⟩
+      have hlt : (sweep .inSchemaOrProcessed os order (resetUnknown (run .untilSettledOrStalled .inSchemaOrProcessed os order (k + 1)).st)).unknown
+          ≠ (run .untilSettledOrStalled .inSchemaOrProcessed os order (k + 1)).last := fun e => hc ⟨hne, e⟩
+      simp only
+      omega
+
+/-- **Termination** of the stall-detecting loop: with `n` objects it has been left after at most `n + 2` iterations -/
+theorem run_stalled_terminates (os order : List Obj) (hnd : (order.map (·.name)).Nodup) :
+    (run .untilSettledOrStalled .inSchemaOrProcessed os order (order.length + 2)).exited = true := by
+  cases h : (run .untilSettledOrStalled .inSchemaOrProcessed os order (order.length + 1 + 1)).exited with
+  | true => rfl
+  | false =>
+    have := (run_stalled_progress os order hnd (order.length + 1) h).2
+    omega
 
 end StepModel.GenFiles.Pass
